@@ -24,6 +24,7 @@ type kInode struct {
 	data    []Value
 	nlink   int
 	lockOFD int
+	isLock  bool // created under the name "lock"
 }
 
 type kOFD struct {
@@ -137,9 +138,41 @@ const (
 	oEXCL   = 0x80
 )
 
+func isLockPath(name string) bool {
+	return name == "lock" || strings.HasSuffix(name, "/lock")
+}
+
+// regY registers a system call that is a scheduling point when the flag
+// "lockYield" is set, several threads exist and the call concerns the lock file
+// (by path or by descriptor): the interleavings of Open's and Close's lock-file
+// steps are then explored at system-call granularity in DB-level harnesses.
+func regY(name string, onLock func(s *State, a []Value) bool, f func(s *State, a []Value) Value) {
+	reg(name, func(s *State, th *Thread, fr *Frame, args []Value, call *ssa.Call, rk retKind) (Value, bool) {
+		if s.flags["lockYield"] != 0 && len(s.threads) > 1 && onLock(s, args) {
+			if !s.schedPoint(th, waitSpec{}) {
+				return nil, false
+			}
+		}
+		v := f(s, args)
+		if s.dead {
+			return nil, false
+		}
+		return v, true
+	})
+}
+
 func regKernel() {
 	stubName := func(n string) { stats.stubs["kernel-model:"+n]++ }
-	simple("os.Stat", func(s *State, a []Value) Value {
+	pathIsLock := func(s *State, a []Value) bool { return isLockPath(cleanPath(str(a[0]))) }
+	fileIsLock := func(s *State, a []Value) bool {
+		o, _ := s.kFile(a[0])
+		return o != nil && s.k().inodes[o.ino].isLock
+	}
+	fdIsLock := func(s *State, a []Value) bool {
+		o := s.k().ofds[int(s.cint(a[0]))]
+		return o != nil && s.k().inodes[o.ino].isLock
+	}
+	regY("os.Stat", pathIsLock, func(s *State, a []Value) Value {
 		stubName("stat")
 		name := cleanPath(str(a[0]))
 		ino, ok := s.k().dir[name]
@@ -149,7 +182,7 @@ func regKernel() {
 		in := s.k().inodes[ino]
 		return TupleV{IfaceV{T: fileInfoT, V: NativeV{&kFileInfo{name: name, ino: ino, size: int64(len(in.data))}}}, nilErr()}
 	})
-	simple("os.OpenFile", func(s *State, a []Value) Value {
+	regY("os.OpenFile", pathIsLock, func(s *State, a []Value) Value {
 		stubName("open")
 		name := cleanPath(str(a[0]))
 		flag := int(s.cint(a[1]))
@@ -164,7 +197,7 @@ func regKernel() {
 			}
 			ino = k.nextIno
 			k.nextIno++
-			k.inodes[ino] = &kInode{id: ino, nlink: 1}
+			k.inodes[ino] = &kInode{id: ino, nlink: 1, isLock: isLockPath(name)}
 			k.dir[name] = ino
 		} else if flag&oTRUNC != 0 {
 			k.inodes[ino].data = nil
@@ -180,7 +213,7 @@ func regKernel() {
 		_, fd := s.kFile(a[0])
 		return Const(64, uint64(fd))
 	})
-	simple("(*os.File).Close", func(s *State, a []Value) Value {
+	regY("(*os.File).Close", fileIsLock, func(s *State, a []Value) Value {
 		stubName("close")
 		o, fd := s.kFile(a[0])
 		if o == nil {
@@ -194,7 +227,7 @@ func regKernel() {
 		}
 		return nilErr()
 	})
-	simple("syscall.Flock", func(s *State, a []Value) Value {
+	regY("syscall.Flock", fdIsLock, func(s *State, a []Value) Value {
 		stubName("flock")
 		fd := int(s.cint(a[0]))
 		k := s.k()
@@ -209,7 +242,7 @@ func regKernel() {
 		in.lockOFD = fd
 		return nilErr()
 	})
-	simple("os.Remove", func(s *State, a []Value) Value {
+	regY("os.Remove", pathIsLock, func(s *State, a []Value) Value {
 		stubName("unlink")
 		name := cleanPath(str(a[0]))
 		k := s.k()
@@ -292,7 +325,7 @@ func regKernel() {
 		}
 		return Bool(x.X.(*kFileInfo).ino == y.X.(*kFileInfo).ino)
 	})
-	simple("(*os.File).Stat", func(s *State, a []Value) Value {
+	regY("(*os.File).Stat", fileIsLock, func(s *State, a []Value) Value {
 		stubName("fstat")
 		o, _ := s.kFile(a[0])
 		if o == nil {
